@@ -180,6 +180,11 @@ pub fn execute(plan: &Plan, ctx: &mut Ctx) {
     let followed: Vec<SensorHandle<Datum<State>>> = (0..nt).map(|_| SensorHandle::new()).collect();
     let mut is_following = vec![false; nt];
     let mut fol: Vec<Option<(i64, [u32; 3])>> = vec![None; nt];
+    // ... and scripted getters of COMMANDS that device terminals follow (op TFC)
+    let followed_c: Vec<SensorHandle<Datum<Command>>> = (0..nt).map(|_| SensorHandle::new()).collect();
+    let mut is_following_c = vec![false; nt];
+    let mut folc: Vec<Option<(i64, u8, u32)>> = vec![None; nt];
+    let mut cmd_followers_active = false;
     let mut twins: BTreeMap<usize, PidTwin> = BTreeMap::new();
     for (di, spec) in specs.iter().enumerate() {
         if let DevSpec::Pid(k, b) = spec {
@@ -220,7 +225,7 @@ pub fn execute(plan: &Plan, ctx: &mut Ctx) {
         // validity of indices (after minimisation some ops may dangle)
         let valid = match code {
             "C" => a0 < nt && (op.arg(1) as usize) < nt && a0 != op.arg(1) as usize,
-            "D" | "DB" | "SS" | "SC" => a0 < nt,
+            "D" | "DB" | "SS" | "SC" | "TF" | "TFN" | "TFC" | "TFCN" => a0 < nt,
             "CB" => a0 < nt && (op.arg(1) as usize) < nt && a0 != op.arg(1) as usize && (op.arg(2) as usize) < nt,
             "UD" | "FB" | "MREJ" | "MUERR" | "ENC" | "ENCN" | "ENCE" | "ENCUERR" | "ENCP" => a0 < specs.len(),
             _ => true,
@@ -388,6 +393,25 @@ pub fn execute(plan: &Plan, ctx: &mut Ctx) {
                     }
                     None
                 }
+                // TFC k t kind bits: terminal k follows a getter that now holds this command; TFCN k: nothing
+                "TFC" | "TFCN" => {
+                    if !is_following_c[a0] {
+                        <Terminal<'_, E> as Settable<Datum<Command>, E>>::follow(
+                            &mut terms[a0].borrow_mut(),
+                            dyn_getter::<Datum<Command>, _>(followed_c[a0].sensor()),
+                        );
+                        is_following_c[a0] = true;
+                    }
+                    if code == "TFC" {
+                        let c = cmd_from(op.arg(2) as u8, op.arg(3) as u32);
+                        followed_c[a0].set(Ok(Some(Datum::new(Time(op.arg(1)), Datum::new(Time(op.arg(1)), c)))));
+                        folc[a0] = Some((op.arg(1), op.arg(2) as u8, op.arg(3) as u32));
+                    } else {
+                        followed_c[a0].set(Ok(None));
+                        folc[a0] = None;
+                    }
+                    None
+                }
                 "UD" => Some(norm_unit(&devs[a0].update())),
                 // FB d mode t p v a: from now on the inner object of wrapper d talks to the wrapper's own
                 // terminal from inside the calls the wrapper makes on it (see dev_arena::Feedback)
@@ -505,11 +529,20 @@ pub fn execute(plan: &Plan, ctx: &mut Ctx) {
                 model[a0].own_s = Some((op.arg(1), [op.arg(2) as u32, op.arg(3) as u32, op.arg(4) as u32]));
                 ctx.count("n.state_set");
             }
+            "TFC" | "TFCN" => {
+                // a followed command overwrites the terminal's own slot at every update of its device,
+                // newer or not: "the newest command issued" is no longer a property of the set ops alone,
+                // so the bounded-progress bookkeeping stands down for the rest of the run
+                cmd_followers_active = true;
+                knows.clear();
+                newest = None;
+                ctx.count("fault.command_follower");
+            }
             "SC" => {
                 let t = op.arg(1);
                 model[a0].own_c = Some((t, op.arg(2) as u8, op.arg(3) as u32));
                 ctx.count("n.command_set");
-                let is_newest = max_cmd_time.map(|m| t > m).unwrap_or(true);
+                let is_newest = max_cmd_time.map(|m| t > m).unwrap_or(true) && !cmd_followers_active;
                 if is_newest {
                     max_cmd_time = Some(t);
                     newest = Some((t, op.arg(2) as u8));
@@ -527,7 +560,7 @@ pub fn execute(plan: &Plan, ctx: &mut Ctx) {
             }
             _ => {}
         }
-        if matches!(code, "SS" | "SC" | "ENC" | "ENCP" | "FB") {
+        if matches!(code, "SS" | "SC" | "ENC" | "ENCP" | "FB" | "TFC") {
             let t = if code == "FB" { op.arg(2) } else { op.arg(1) };
             tmin = Some(tmin.map_or(t, |m: i64| m.min(t)));
             tmax = Some(tmax.map_or(t, |m: i64| m.max(t)));
@@ -558,6 +591,17 @@ pub fn execute(plan: &Plan, ctx: &mut Ctx) {
             // Modelled for unlinked terminals; an update with a linked follower terminal is not judged.
             let mut pre = pre;
             let mut unmodelled = false;
+            for &k in ts.iter() {
+                if let Some(f) = folc[k] {
+                    if model[k].partner.is_some() || !matches!(spec, DevSpec::Invert | DevSpec::Gear(_) | DevSpec::GearTeeth(_) | DevSpec::Axle(_) | DevSpec::Diff(_)) {
+                        unmodelled = true;
+                    } else {
+                        pre[k].own_c = Some(f);
+                        pre[k].rd_c = Out::Some(f.0, Val::C(f.1, f.2));
+                        ctx.count("reach.device_pulls_followed_command");
+                    }
+                }
+            }
             for &k in ts.iter() {
                 if let Some(f) = fol[k] {
                     if model[k].partner.is_some() || !matches!(spec, DevSpec::Invert | DevSpec::Gear(_) | DevSpec::GearTeeth(_) | DevSpec::Axle(_) | DevSpec::Diff(_)) {
@@ -669,6 +713,22 @@ pub fn execute(plan: &Plan, ctx: &mut Ctx) {
             }
         }
 
+        // ---- and by the holder of the terminal's own mutable guard (write, then read back through it)
+        for k in 0..nt {
+            match guarded(|| snap_term_via_mut(terms[k])) {
+                Ok(s2) => {
+                    if s2 != snaps[k] {
+                        viol2(ctx, &["C09"], "read_through_own_mutable_guard", "terminal", format!("op {}: terminal {} reads differently through its own mutable guard", i, k));
+                    }
+                    ctx.count("reach.read_through_own_mutable_guard");
+                }
+                Err(pn) => {
+                    viol2(ctx, &["C09"], "panic", "read_through_own_mutable_guard", format!("op {}: reading terminal {} through its own mutable guard panicked: {:?} at {}", i, k, pn.msg, pn.short_loc()));
+                    break;
+                }
+            }
+        }
+
         // ---- bounded progress (C13, over the recorded history)
         if let Some((tstar, kind)) = newest {
             for (&k, &(val, hops)) in &knows {
@@ -721,6 +781,8 @@ fn op_code_num(code: &str) -> i64 {
         "DB" => 13,
         "CB" => 14,
         "FB" => 15,
+        "TFC" => 16,
+        "TFCN" => 17,
         _ => 0,
     }
 }
